@@ -1,3 +1,4 @@
 pub mod common;
 pub mod wiregen;
 pub mod routersim;
+pub mod testbed;
